@@ -428,6 +428,7 @@ func TestCheck(t *testing.T) {
 	close(ch)
 	wg.Wait()
 	answerChanges(rep, states)
+	sourceAddress(rep, states)
 	sec.States, sec.Transitions = int64(len(states)), sec.Evaluations
 	sec.Samples = append(sec.Samples, "state=a12b1 POST /api/get ct=application/json hdr=setec whois=user-limited body=valid-b -> 200 with the API's JSON", "state=a1 GET /api/put ... -> non-2xx, database and audit log untouched")
 	if err := rep.Write(env); err != nil {
@@ -562,4 +563,106 @@ func answerChanges(rep *report.Report, states []dbState) {
 	}
 	sec.States, sec.Transitions = int64(len(states)*len(ws)*len(ws)), sec.Evaluations
 	sec.Samples = append(sec.Samples, "state=a1 first answer user-full, then user-no-grant: POST /api/get body=valid-a from 100.101.102.103:6001")
+}
+
+// sourceAddress: the identity is what the tailnet says about the connection's source address, and
+// nothing a request carries can name another address. A WhoIs that answers per address (a privileged
+// node P, an ordinary peer Q without grants, loopback unknown to the tailnet) serves requests from Q
+// and from loopback that carry headers naming P.
+func sourceAddress(rep *report.Report, states []dbState) {
+	sec := rep.Add(&report.Section{Name: "identity-is-the-source-address", Engine: "enum", Exhaustive: true, Extra: map[string]int64{}, Outcomes: map[string]int64{},
+		Rule: "database state(3) × source {a tailnet peer without grants, 127.0.0.1, ::1} × address-naming header {X-Forwarded-For: P / P, Q / Q, P; X-Real-Ip; Forwarded: for=P; X-Forwarded-Host; Tailscale-User-Login; True-Client-Ip; X-Client-Ip} × endpoint(7) × its well-formed bodies, against a WhoIs that answers per address (P privileged): status, body, database and audit records must equal those of the same request without the header, and WhoIs must only ever be asked about the connection's own address; non-trivial = all"})
+	const P = "100.64.0.1"
+	dir := hx.Scratch("c08sa-")
+	defer os.RemoveAll(dir)
+	rdir := hx.Scratch("c08sar-")
+	defer os.RemoveAll(rdir)
+	var asked []string
+	whois := func(ctx context.Context, addr string) (*apitype.WhoIsResponse, error) {
+		asked = append(asked, addr)
+		switch {
+		case strings.HasPrefix(addr, P+":") || addr == P:
+			return &apitype.WhoIsResponse{Node: &tailcfg.Node{Name: "admin.example.ts.net"}, UserProfile: &tailcfg.UserProfile{ID: 1, LoginName: "admin@example.com"}, CapMap: tailcfg.PeerCapMap{server.ACLCap: raw(full)}}, nil
+		case strings.HasPrefix(addr, "100.101.102.103"):
+			return &apitype.WhoIsResponse{Node: &tailcfg.Node{Name: "peer.example.ts.net"}, UserProfile: &tailcfg.UserProfile{ID: 7, LoginName: "alice@example.com"}, CapMap: tailcfg.PeerCapMap{}}, nil
+		}
+		return nil, errors.New("no such peer")
+	}
+	strip := func(b []byte) string {
+		var out []string
+		for _, l := range bytes.Split(bytes.TrimSpace(b), []byte("\n")) {
+			var m map[string]any
+			if json.Unmarshal(l, &m) == nil {
+				delete(m, "time")
+				delete(m, "id")
+				c, _ := json.Marshal(m)
+				out = append(out, string(c))
+			} else if len(l) > 0 {
+				out = append(out, string(l))
+			}
+		}
+		return strings.Join(out, "\n")
+	}
+	type hdr struct{ k, v string }
+	for _, st := range states {
+		for _, src := range []string{"100.101.102.103:5555", "127.0.0.1:4000", "[::1]:4000"} {
+			host := strings.TrimSuffix(strings.TrimSuffix(src, ":5555"), ":4000")
+			hdrs := []hdr{{"X-Forwarded-For", P}, {"X-Forwarded-For", P + ", " + strings.Trim(host, "[]")}, {"X-Forwarded-For", strings.Trim(host, "[]") + ", " + P}, {"X-Real-Ip", P}, {"Forwarded", "for=" + P}, {"X-Forwarded-Host", P}, {"Tailscale-User-Login", "admin@example.com"}, {"True-Client-Ip", P}, {"X-Client-Ip", P}}
+			for _, ep := range endpoints {
+				for _, bd := range bodiesFor(ep) {
+					if bd.class != "valid" {
+						continue
+					}
+					do := func(scratch string, h *hdr) (int, []byte, string, string, []string) {
+						sk := &sink{}
+						d := openCopy(scratch, st.file, audit.New(sk))
+						mux := http.NewServeMux()
+						if _, err := server.New(context.Background(), server.Config{DB: d, WhoIs: whois, Mux: mux}); err != nil {
+							panic(err)
+						}
+						asked = nil
+						req := httptest.NewRequest("POST", "/api/"+ep, strings.NewReader(bd.data))
+						req.RemoteAddr = src
+						req.Header.Set("Content-Type", "application/json")
+						req.Header.Set("Sec-X-Tailscale-No-Browsers", "setec")
+						if h != nil {
+							req.Header.Set(h.k, h.v)
+						}
+						rec := httptest.NewRecorder()
+						mux.ServeHTTP(rec, req)
+						return rec.Code, rec.Body.Bytes(), hx.DumpKey(d), strip(sk.buf.Bytes()), append([]string(nil), asked...)
+					}
+					c0, b0, s0, a0, _ := do(rdir, nil)
+					for i := range hdrs {
+						h := hdrs[i]
+						sec.Evaluations++
+						sec.Nontrivial++
+						desc := fmt.Sprintf("state=%s POST /api/%s body=%s from %s with %s: %s", st.name, ep, bd.name, src, h.k, h.v)
+						c1, b1, s1, a1, who := do(dir, &h)
+						sec.Outcomes[fmt.Sprintf("status %d", c1)]++
+						var diffs []string
+						if c1 != c0 || !bytes.Equal(b1, b0) {
+							diffs = append(diffs, fmt.Sprintf("status %d body %q; without the header %d %q", c1, report.Clip(string(b1), 100), c0, report.Clip(string(b0), 100)))
+						}
+						if s1 != s0 {
+							diffs = append(diffs, fmt.Sprintf("database %s; without the header %s", s1, s0))
+						}
+						if a1 != a0 {
+							diffs = append(diffs, fmt.Sprintf("audit records %q; without the header %q", report.Clip(a1, 200), report.Clip(a0, 200)))
+						}
+						for _, w := range who {
+							if w != src {
+								diffs = append(diffs, fmt.Sprintf("the tailnet was asked about %q; the connection comes from %q", w, src))
+							}
+						}
+						if len(diffs) > 0 {
+							rep.Violate(sec.Name, fmt.Sprintf("http/identity-from-header: %s from %s", h.k, host), desc+": "+strings.Join(diffs, "; "), map[string]any{"desc": desc})
+						}
+					}
+				}
+			}
+		}
+	}
+	sec.States, sec.Transitions = int64(len(states)*3), sec.Evaluations
+	sec.Samples = append(sec.Samples, "state=a1 POST /api/get body=valid-a from 127.0.0.1:4000 with X-Forwarded-For: 100.64.0.1")
 }
